@@ -81,6 +81,15 @@ def run(cx):
         cx.run([lang, "render", "-in", sp, "-out", so])
         batches.append(("shapes-" + fam, so))
 
+    # designed programs that read the host's side through the VirtualOS (no model: compared across repetitions only)
+    host_srcs = ["import os\nos.environ()", "import os\nprint(os.environ())\nlen(os.environ())", "import os\nsorted(os.environ()) == os.environ()",
+                 "import os\n[os.getenv(\"HOME\"), os.getenv(\"ZED\"), os.environ()[0]]"]
+    hin = cx.path("host.ndjson")
+    vlib.write_ndjson(hin, [{"id": i, "ast": [{"k": "raw", "src": t}], "hoist": []} for i, t in enumerate(host_srcs)])
+    hout = cx.path("host.cases.ndjson")
+    cx.run([lang, "render", "-in", hin, "-out", hout])
+    batches.append(("host", hout))
+
     total = nondet = checked = unknown_total = 0
     nontriv = set()
     for label, path in batches:
